@@ -193,7 +193,39 @@ def fam_apis(rng, i):
     return _nz(p)
 
 
-FAMILIES = {"apis": fam_apis, "acklimited": fam_acklimited, "flowctl": fam_flowctl, "forgery": fam_forgery, "mixed": fam_mixed, "sink": fam_sink, "blackhole": fam_blackhole, "attack": fam_attack, "handshake": fam_handshake}
+def fam_stopfin(rng, i):
+    """short finished streams whose first packets are lost while the receiver answers with STOP_SENDING at once
+    (or the sender resets right after finishing): RESET_STREAM races with pending retransmissions"""
+    p = {
+        "seed": rng.randrange(1, 2**40), "bidi": rng.choice([1, 2, 3]), "uni": rng.choice([0, 1, 2]), "suni": 0,
+        "size": rng.choice([1500, 3000, 6000, 12000]), "chunk": rng.choice([700, 3000]),
+        "drop_pm": rng.choice([150, 250, 350]), "dup_pm": rng.choice([0, 50]), "jitter_ms": rng.choice([0, 10]),
+        "delay_ms": rng.choice([10, 40, 100]), "faults_until_ms": 6000, "deadline_ms": 120000,
+    }
+    if i % 2 == 0:
+        p["stop_stream"] = rng.choice([0, 0, 1])
+        p["stop_after"] = 0
+    else:
+        p["reset_stream"] = 0
+        p["reset_after"] = 10**9
+        p["reset_after_finish_ms"] = rng.choice([1, 20, 60, 150])
+    return _nz(p)
+
+
+def fam_closing(rng, i):
+    """the client closes in the middle of a transfer while the server keeps sending (its copy of the close is
+    often lost), with short connection-ID lifetimes so that unrelated connection timers keep firing"""
+    p = {
+        "seed": rng.randrange(1, 2**40), "bidi": rng.choice([0, 1]), "uni": rng.choice([0, 1]), "suni": rng.choice([1, 2, 3]),
+        "size": rng.choice([100000, 400000]), "chunk": 20000, "delay_ms": rng.choice([10, 30, 80]),
+        "close_at_ms": rng.choice([150, 400, 900]), "drop_pm": rng.choice([0, 100, 300]), "jitter_ms": rng.choice([0, 10]),
+        "c.cid_lifetime_ms": rng.choice([0, 60000, 61000]), "s.cid_lifetime_ms": rng.choice([0, 60000]),
+        "faults_until_ms": 5000, "deadline_ms": 120000,
+    }
+    return _nz(p)
+
+
+FAMILIES = {"stopfin": fam_stopfin, "closing": fam_closing, "apis": fam_apis, "acklimited": fam_acklimited, "flowctl": fam_flowctl, "forgery": fam_forgery, "mixed": fam_mixed, "sink": fam_sink, "blackhole": fam_blackhole, "attack": fam_attack, "handshake": fam_handshake}
 
 
 def summarize(tr):
